@@ -260,4 +260,50 @@ example : ValidFrom ⟨World.init Db.empty, Spec.init Db.empty⟩ [.create ⟨0,
    cascade rules as such (their effect enters as column-level operations; C12 / C15), lifecycle hooks (C33), read bits and
    optimistic checks (C20 / C21), lazy attributes, inheritance, several databases in one session. -/
 
+/-- `C09_refused_call_changes_nothing`: a call that is REFUSED (raises before / while changing the session and is undone: constructor
+    under a key in use, assignment to or link change with a deleted / unknown object, ...) leaves the whole session - statuses,
+    written columns, save queue, pending additions AND removals of every collection, the transaction - exactly as it was, and
+    writes nothing: whatever was pending before the failed call is still pending, nothing else is.  (Calls refused for reasons the
+    model does not know - ConstraintError of a Required reference, CacheIndexError of a unique key - reach the model as "no
+    operation"; that the real session is unchanged by them is compared state by state in the engine, and at the next commit the
+    database is compared with what the program had: the directed family `failed_call_family` and the random shape
+    "failing call after pending collection changes".) -/
+theorem C09_refused_call_changes_nothing (w : World) (op : Op) (r : Refusal) (h : (step w op).2.1 = .refused r) :
+    (step w op).1 = w ∧ (step w op).2.2 = [] := by
+  cases op with
+  | create k vals => simp only [step, create] at h ⊢; split at h <;> simp_all
+  | set k c v =>
+    simp only [step, setAttr] at h ⊢
+    cases ho : w.cache.objs k with
+    | none => simp [ho]
+    | some o => simp only [ho] at h ⊢; repeat' split at h <;> simp_all
+  | link l => simp only [step, linkOp] at h ⊢; repeat' split at h <;> simp_all
+  | unlink l => simp only [step, unlinkOp] at h ⊢; repeat' split at h <;> simp_all
+  | delete k =>
+    simp only [step, deleteObj] at h ⊢
+    cases ho : w.cache.objs k with
+    | none => simp [ho]
+    | some o => simp only [ho] at h ⊢; repeat' split at h <;> simp_all
+  | load k =>
+    simp only [step, loadObj] at h
+    repeat' split at h
+    all_goals first | (simp at h; done) | (simp_all [fetch]; done) | skip
+    all_goals (unfold fetch at h; repeat' split at h) <;> simp_all
+  | seed k => simp only [step] at h ⊢; split at h <;> simp_all
+  | hasLink l => simp [step] at h
+  | flush => simp only [step] at h; split at h <;> simp at h
+  | commit => simp only [step, commitOp] at h; split at h <;> simp at h
+  | rollback => simp [step] at h
+  | endOk =>
+    simp only [step, commitOp] at h
+    repeat' split at h
+    all_goals simp_all
+  | endErr => simp [step] at h
+
+/-- together with the refinement: in ALL histories of a well-formed program a refused call changes neither the session's logical
+    view nor the reference machine - the state that the next commit writes is the one the program had before the failed call -/
+theorem C09_refused_call_keeps_view (b : Both) (op : Op) (r : Refusal) (h : (step b.w op).2.1 = .refused r) :
+    abs (step b.w op).1 = abs b.w ∧ (step b.w op).1.committed = b.w.committed := by
+  rw [(C09_refused_call_changes_nothing b.w op r h).1]; exact ⟨rfl, rfl⟩
+
 end PonyVerif.Props.C09
